@@ -674,7 +674,7 @@ def gen_rel_cases(rng, tier, nets):
             wt = wal_wt(rng, net, WITNESS_TYPES[j % 3])
             j += 1
             cs.append(Case('rel_' + conf.split(':')[0], 'rel %s %s %s %s - %s' % (conf, rseed(), net, wt, ','.join(clean(lds)))))
-    for _ in range(150 if big else 16):
+    for _ in range(90 if big else 16):
         multi = rng.random() < 0.7
         conf = rng.choice([c for c in MULTI_CONFS if 'prv' in c or 'master' in c]) if multi else rng.choice(['master', 'acctprv', 'single'])
         net = 'bitcoinlib_test' if rng.random() < 0.6 else rng.choice(nets)
